@@ -389,6 +389,8 @@ def gen_request(r, defect=None):
         svcs = [SVC_POOL[0]] + svcs[:2]
     files, mi, bare = [], 0, set()
     nested_mid = r.random() < 0.5
+    sib_pair = r.choice([("common", "common_types"), ("type", "types"), ("resource", "resources")])
+    sibs_root = r.random() < 0.5
     sub = r.choice(["sub", "types_ext", "admin"]) if (ver and r.random() < 0.3) or defect in ("nested", "subsvc") else None
     if stems[:2] in ([FILE_POOL[0], FILE_POOL[1]], [FILE_POOL[1], FILE_POOL[0]]) and len(stems) < 3 and defect not in ("nested", "subsvc"):
         sub = None
@@ -404,16 +406,20 @@ def gen_request(r, defect=None):
         d = pkg.replace(".", "/")
         stems = (stems + [s for s in FILE_POOL if s not in stems])[:max(2, len(stems))]
         svcs = svcs if len(svcs) >= 2 else r.sample(SVC_POOL, 2)
-    if defect == "siblings":
+    if defect in ("siblings", "prefixsibs"):
         ver = ver or "v1"
         pkg = ".".join(ns + [name, ver])
         d = pkg.replace(".", "/")
-        if len(stems) < 2:
-            stems = (stems + [x for x in FILE_POOL if x[1] not in [y[1] for y in stems]])[:2]
+        if len(stems) < (3 if defect == "prefixsibs" else 2):
+            stems = (stems + [x for x in FILE_POOL if x[1] not in [y[1] for y in stems]])[:(3 if defect == "prefixsibs" else 2)]
     for k, (stem, _) in enumerate(stems):
         p = pkg + "." + sub if (sub and k == len(stems) - 1 and k > 0) else pkg
         if defect == "siblings":
             p = pkg + "." + ["alpha", "apple", "alpha"][k % 3]
+        if defect == "prefixsibs":
+            # sibling sub-packages where one NAME is a textual prefix of the other (common / common_types, type / types);
+            # optionally a file in the root package first
+            p = pkg if (k == 0 and sibs_root) else pkg + "." + sib_pair[(k + (0 if sibs_root else 1)) % 2]
         if defect == "nested" and k == len(stems) - 1:
             p = pkg + "." + sub + ".deep"
         elif defect == "nested" and k == 1 and len(stems) > 2 and nested_mid:
@@ -888,6 +894,7 @@ def run(ctx):
     cases += [c for c in (make_case("C11-e2e-reserved", i, "reserved") for i in range(ctx.n(3, 30))) if c]
     cases += [c for c in (make_case("C11-e2e-casepair", i, "casepair") for i in range(ctx.n(1, 6))) if c]
     cases += [c for c in (make_case("C11-e2e-siblings", i, "siblings") for i in range(ctx.n(1, 8))) if c]
+    cases += [c for c in (make_case("C11-e2e-prefixsibs", i, "prefixsibs") for i in range(ctx.n(3, 16))) if c]
     cases += [c for c in (make_case("C11-e2e-midmarker", i, "midmarker") for i in range(ctx.n(3, 16))) if c]
     cases += [c for c in (make_case("C11-e2e-nsrepeat", i, "nsrepeat") for i in range(ctx.n(3, 16))) if c]
     checks = run_e2e(ctx, cases)
